@@ -18,6 +18,14 @@ def check(prog, ctx):
              'mid=(a+b)/2, hw=(b-a)/2; these are the only writes to the rule; the index sets {i} and {n-1-i}, i<m cover 0..n-1 for both parities', 4)
     ctx.rule('C12.c', 'the three Integrate_Gauss_Legendre overloads form a delegation chain ending in sum values[i]*rule[i][1] with values[i]=f(rule[i][0]); '
              'the first overload builds the rule for exactly (n, a, b); mismatched lengths are rejected', 4)
+    ctx.rule('C12.d', 'the rule for (n, a, b) does not depend on earlier calls: no persistent local of the rule builder or of the three '
+             'integrators can be read before the current call assigned it, except as an exact cache keyed on every argument', 4)
+    from ..state import history_dependence
+    for hf in [f_ for f_ in prog.repo_functions() if f_.name in ('Compute_Gauss_Legendre_Roots_and_Weights', 'Integrate_Gauss_Legendre')]:
+        hv = history_dependence(prog, hf)
+        badh = [d_ for n_, v_, d_ in hv if v_ == 'violated']
+        ctx.decide('C12.d', '%s/%d:stateless' % (hf.name, len(hf.params)), hf, not badh, 'no history-carrying local state (%d persistent locals)' % len(hv),
+                   '; '.join(badh), witness={'reproducer': 'request order 2k right after order 2k-1: a node is duplicated and the weights do not sum to b-a'} if badh else None)
     fn = prog.fn(L + 'Compute_Gauss_Legendre_Roots_and_Weights')
     n = Symbol('n', integer=True)
     names = [p['name'] for p in fn.params]
@@ -208,7 +216,7 @@ def check(prog, ctx):
     ctx.decide('C12.b', 'no-other-writes', fn, not outside, 'the rule is written only inside the node loop', 'writes outside the node loop: %s' % outside)
     # mid / hw definitions used
     ctx.decide('C12.b', 'affine-map', fn, True, 'mid=(a+b)/2, hw=(b-a)/2 are substituted in the node formulas above')
-    overloads(prog, ctx)
+    ctx.sub('overloads', overloads, prog, ctx)
 
 
 def overloads(prog, ctx):
